@@ -263,7 +263,17 @@ def r4_constant(ctx):
            why='the draw is claimed at the third occurrence, not earlier and not later')
 
 
+def r5_who_may_write(ctx):
+    """the occurrence table and the max-count stack change only in count / uncount (= the C05.R4 rows for PositionInfo.position_count
+    and max_seen_position_count_stack): any other writer (a "forget old positions" shortcut) makes counts differ from registrations"""
+    import_rules(ctx, 'C17.R5-table-writers', [c05.r4_who_may_write],
+                 'the count reported for a position must equal the number of registrations still in force; a second writer of the table '
+                 '(clearing it on an irreversible move, say) is not undone by undo and loses registrations made before it',
+                 keep=lambda s: 'position_count' in s['function'] or 'count_current_position' in s['function'], floor=2)
+
+
 def run(ctx):
+    r5_who_may_write(ctx)
     r1_inverse(ctx)
     r2_key_coverage(ctx)
     r2b_key_faithful(ctx)
